@@ -2,6 +2,7 @@
 // Engine E2 (langx): every string of <= n tokens over an adversarial template-token alphabet (plus every code-unit
 // truncation of a token in last position), rendered against 8 value trees from an exact-size, unterminated buffer.
 #include "tmpl_common.hpp"
+#include "tmpl_gen.hpp"
 
 using namespace langx;
 
@@ -102,6 +103,54 @@ int main(int argc, char **argv) {
             });
         };
         plan.stages.push_back(st);
+        // stage 2: grammar derivations and their deviations
+        const int gk = atoi(a.get("nodes", "3").c_str());
+        const int gd = atoi(a.get("dev", "1").c_str());
+        static tgen::Grammar      G;
+        static std::vector<tgen::Tokens> bases;
+        {
+            tgen::Gen gen(G, gk);
+            gen.run();
+            bases = gen.out;
+        }
+        plan.rule += " || W_k/Dev_d: all " + std::to_string(bases.size()) + " well-formed templates with <=" + std::to_string(gk) +
+                     " nodes over 12 leaf tags (var/raw/math incl. %0 and INT64_MIN%-1/svar/inline-if) and 8 containers (if/else/else-if/elseif, "
+                     "loop with set/sort/group/nested set), nesting <=4; each with every code-unit cut and every deviation of distance <=" +
+                     std::to_string(gd) + " (delete a token, insert one of " + std::to_string(G.insertable.size()) +
+                     " tokens anywhere, swap neighbours, replace a closer)";
+        plan.bounds += " nodes<=" + std::to_string(gk) + " dev<=" + std::to_string(gd) + " bases=" + std::to_string(bases.size());
+        {
+            vx::Stage s2;
+            s2.name   = "grammar-deviations";
+            s2.chunks = (int64_t)((bases.size() + 7) / 8);
+            s2.hang_s = 30;
+            s2.fn     = [gd, nvals, wide](int64_t chunk, vx::Ctx &ctx) {
+                static Rig<char>     r8;
+                static Rig<char16_t> r16;
+                for (size_t bi = (size_t)chunk * 8; bi < bases.size() && bi < ((size_t)chunk + 1) * 8; bi++) {
+                    ctx.acc.count("states");
+                    tgen::deviations(G, bases[bi], gd, true, [&](const Text &t) {
+                        ctx.acc.count("transitions");
+                        if (!ctx.next()) {
+                            return;
+                        }
+                        if (ctx.want_desc()) {
+                            ctx.describe(show(t));
+                        }
+                        uint64_t h = 0;
+                        render_all<char>(t, r8, ctx, h, nvals);
+                        if (wide) {
+                            render_all<char16_t>(t, r16, ctx, h, nvals);
+                        }
+                        ctx.acc.outcome(h);
+                        if ((ctx.idx % 50021) == 13) {
+                            ctx.acc.sample(show(t).substr(0, 200));
+                        }
+                    });
+                }
+            };
+            plan.stages.push_back(s2);
+        }
         plan.assumptions = {"ASan/UBSan (asan variants, with and without the exact-fit growth hook) or a PROT_NONE page behind the text (fast variant)",
                             "UBSan groups: bounds,null,integer-divide-by-zero,pointer-overflow,object-size,alignment"};
         return plan;
